@@ -3,6 +3,7 @@ package main
 // Intrinsic models of standard-library and dependency functions (trusted; listed in evidence).
 
 import (
+	"unicode"
 	"fmt"
 	"os"
 	"go/types"
@@ -36,6 +37,39 @@ type intrinsicFn func(c *Ctx, st *State, in ssa.Instruction, args []Value) Value
 var intrinsics = map[string]intrinsicFn{}
 
 func init() {
+	// unicode.Is(unicode.Cf, r) in tcell's cellWidth on a CONCRETE rune (evaluation rule): answered by the unicode
+	// package linked into the verifier - the same standard library the library is built with.  Symbolic runes go
+	// through the assumed contract (spec/trusted/std.spec).
+	intrinsics["unicode.Is"] = func(c *Ctx, st *State, in ssa.Instruction, args []Value) Value {
+		if in == nil || in.Parent() == nil || in.Parent().Name() != "cellWidth" || len(args) != 2 {
+			return notIntrinsic{}
+		}
+		t, ok := args[1].(*Term)
+		if !ok || !isNum(t) {
+			return notIntrinsic{}
+		}
+		r := bvSigned(t.Val, 32).Int64()
+		if r < 0 || r > 0x10FFFF {
+			return False()
+		}
+		return BoolT(unicode.Is(unicode.Cf, rune(r)))
+	}
+	// go-runewidth's RuneWidth on a CONCRETE printable ASCII rune is 1 (evaluation rule only; every other argument goes
+	// through the assumed contract or the dependency's source)
+	intrinsics["github.com/mattn/go-runewidth.RuneWidth"] = func(c *Ctx, st *State, in ssa.Instruction, args []Value) Value {
+		if len(args) != 1 {
+			return notIntrinsic{}
+		}
+		t, ok := args[0].(*Term)
+		if !ok || !isNum(t) {
+			return notIntrinsic{}
+		}
+		r := bvSigned(t.Val, 32).Int64()
+		if r < 0x20 || r > 0x7e {
+			return notIntrinsic{}
+		}
+		return c.idx(1)
+	}
 	intrinsics["math.IsNaN"] = func(c *Ctx, st *State, in ssa.Instruction, args []Value) Value {
 		t := args[0].(*Term)
 		if t.Sort.Kind == SFP {
